@@ -280,54 +280,114 @@ func checkC09(c *Check) {
 			r := &RuleCtx{C: c, FI: fi, F: p.FlowOfFunc(fi), Info: info}
 			c.SawFunc(fi.Name())
 			isSet := func(call *ast.CallExpr) bool { return methodName(call) == "SetStatus" }
-			// status-all loops: range statements (directly in this function) whose body calls SetStatus with the range value
-			var allLoops []*ast.RangeStmt
-			inspectNoLit(fi.Decl.Body, func(n ast.Node) bool {
-				rs, ok := n.(*ast.RangeStmt)
-				if !ok || rs.Value == nil {
-					return true
-				}
-				hit := false
-				inspectNoLit(rs.Body, func(x ast.Node) bool {
-					if call, ok := x.(*ast.CallExpr); ok && isSet(call) && len(call.Args) == 2 && objOf(info, call.Args[0]) == objOf(info, rs.Value) {
-						hit = true
+			// status-all events: a loop over a whole list that reports a status for each element – written in this function,
+			// in a closure of it, or in a function of the package it calls (`failRcpts(sc, rcpts, err)`)
+			allLoopsIn := func(inf *types.Info, body ast.Node) []*ElemLoop {
+				var out []*ElemLoop
+				for _, l := range elemLoops(inf, body, func(e ast.Expr) bool {
+					_, sliced := ast.Unparen(e).(*ast.SliceExpr)
+					return !sliced // a sliced tail `list[k:]` is a fill-in, judged by K3c
+				}) {
+					if !l.Whole {
+						continue
 					}
-					return true
-				})
-				if hit {
-					allLoops = append(allLoops, rs)
+					l := l
+					hit := false
+					inspectNoLit(l.Body, func(x ast.Node) bool {
+						if call, ok := x.(*ast.CallExpr); ok && isSet(call) && len(call.Args) == 2 && l.IsElem(call.Args[0]) {
+							hit = true
+						}
+						return true
+					})
+					if hit {
+						out = append(out, l)
+					}
+				}
+				return out
+			}
+			// closures bound to a local name that report for a whole list
+			allClosures := map[types.Object]bool{}
+			ast.Inspect(fi.Decl.Body, func(n ast.Node) bool {
+				if as, ok := n.(*ast.AssignStmt); ok && len(as.Lhs) == 1 && len(as.Rhs) == 1 {
+					if fl, ok := ast.Unparen(as.Rhs[0]).(*ast.FuncLit); ok && len(allLoopsIn(info, fl.Body)) > 0 {
+						if o := objOf(info, as.Lhs[0]); o != nil {
+							allClosures[o] = true
+						}
+					}
 				}
 				return true
 			})
+			isAllCall := func(call *ast.CallExpr) bool {
+				if o := objOf(info, call.Fun); o != nil && allClosures[o] {
+					return true
+				}
+				if fn := callee(info, call); fn != nil && fn.Pkg() == fi.Obj.Pkg() && fn != fi.Obj {
+					if d := p.DeclOf(fn); d != nil && d.Decl.Body != nil && len(allLoopsIn(d.Info(), d.Decl.Body)) > 0 {
+						return true
+					}
+				}
+				return false
+			}
+			var allLoops []*ElemLoop
+			for _, l := range allLoopsIn(info, fi.Decl.Body) {
+				inLit := false
+				ast.Inspect(fi.Decl.Body, func(n ast.Node) bool {
+					if fl, ok := n.(*ast.FuncLit); ok && posIn(fl.Body, l.Stmt.Pos()) {
+						inLit = true
+					}
+					return true
+				})
+				if !inLit {
+					allLoops = append(allLoops, l)
+				}
+			}
 			anySet := func(pt Pt) bool {
 				n := pt.Node()
 				if n == nil {
 					return false
 				}
 				found := false
-				// a status reported here: direct call, or a call that is handed a callback which reports
+				// a status reported here: direct call, a status-all helper, or a call that is handed a callback which reports
 				ast.Inspect(n, func(x ast.Node) bool {
-					if call, ok := x.(*ast.CallExpr); ok && isSet(call) {
+					if call, ok := x.(*ast.CallExpr); ok && (isSet(call) || isAllCall(call)) {
 						found = true
 					}
 					return true
 				})
 				return found
 			}
-			for li, rs := range allLoops {
-				// whole-list loops only (a sliced tail `list[k:]` is a fill-in, judged by K3c)
-				if _, sliced := ast.Unparen(rs.X).(*ast.SliceExpr); sliced {
-					continue
-				}
-				var done []Pt
-				for _, b := range r.F.G.Blocks {
-					if b.Kind == kindRangeDone && b.Stmt == ast.Stmt(rs) {
-						done = append(done, Pt{b, 0})
+			nEv := 0
+			for _, l := range allLoops {
+				l := l
+				nEv++
+				inLoop := func(pt Pt) bool { n := pt.Node(); return n != nil && posIn(l.Stmt, n.Pos()) }
+				path, f := r.F.Reach(Query{From: r.F.LoopDone(l), Inclusive: true, Target: func(pt Pt) bool { return anySet(pt) && !inLoop(pt) }})
+				c.Hold("K3b", fi.Name()+":all-loop"+itoa(nEv), l.Stmt.Pos(), !f, "after reporting a status for every recipient the function goes on and can report a second status for the same recipients: "+r.F.Describe(path))
+			}
+			for _, pt := range r.F.Points() {
+				for _, call := range callsAt(pt.Node()) {
+					if !isAllCall(call) {
+						continue
 					}
+					// a helper called once per element of an outer loop (`for _, d := range ds { d.failBody(c, err) }`) reports
+					// for that element's recipients only; the next iteration is not "a second status"
+					nEv++
+					pt := pt
+					path, f := r.F.Reach(Query{From: []Pt{pt}, Target: func(q Pt) bool { return anySet(q) && q != pt }})
+					if f {
+						// tolerate the re-execution of the very same call in a later iteration of an enclosing loop
+						only := true
+						for _, q := range path {
+							if anySet(q) && q != pt {
+								only = false
+							}
+						}
+						if only {
+							f = false
+						}
+					}
+					c.Hold("K3b", fi.Name()+":all-loop"+itoa(nEv), call.Pos(), !f, "after reporting a status for every recipient (through "+exprStr(call.Fun)+") the function goes on and can report a second status for the same recipients: "+r.F.Describe(path))
 				}
-				inLoop := func(pt Pt) bool { n := pt.Node(); return n != nil && posIn(rs, n.Pos()) }
-				path, f := r.F.Reach(Query{From: done, Inclusive: true, Target: func(pt Pt) bool { return anySet(pt) && !inLoop(pt) }})
-				c.Hold("K3b", fi.Name()+":all-loop"+itoa(li+1), rs.Pos(), !f, "after reporting a status for every recipient the function goes on and can report a second status for the same recipients: "+r.F.Describe(path))
 			}
 			// K3c
 			inspectNoLit(fi.Decl.Body, func(n ast.Node) bool {
